@@ -95,6 +95,23 @@ func genQScenario(r *rand.Rand) qScenario {
 		evs = append(evs, qEvent{kind: 1, id: base + 1 + r.Intn(6)})
 		sc.phases = [][]qEvent{evs, {{kind: 4, table: 1}}, {{kind: 4, table: 1}}, {{kind: 4, table: 1}}}
 	}
+	// a heap filled in a random order (so the slice is not sorted), one or two waiters cancelled, a sweep, then
+	// notifications in the middle of the revisions: every live waiter at or below the notified revision must be released,
+	// wherever the sweep left it in the slice
+	if r.Intn(3) == 0 {
+		var evs []qEvent
+		n := 6 + r.Intn(7)
+		base := nextID
+		for _, p := range r.Perm(n) {
+			evs = append(evs, qEvent{kind: 0, id: nextID, table: 1, rev: uint64(p + 1)})
+			nextID++
+		}
+		for k := 1 + r.Intn(2); k > 0; k-- {
+			evs = append(evs, qEvent{kind: 1, id: base + r.Intn(n)})
+		}
+		mid := uint64(2 + r.Intn(n-2))
+		sc.phases = [][]qEvent{evs, {{kind: 2, table: 1, rev: mid}, {kind: 4, table: 1}}, {{kind: 2, table: 1, rev: mid + 1}, {kind: 4, table: 1}}, {{kind: 2, table: 1, rev: uint64(n)}, {kind: 4, table: 1}}}
+	}
 	return sc
 }
 
